@@ -119,7 +119,14 @@ def pure_handlers(ix, rep, mon, rule='R-PURE'):
                              '(results/inputs of other nodes are a hidden input)' % (ncname, sub), nd.lineno)
                 continue
             if attr in ef.writes and _first_access_is_store(f.node, attr):
-                continue  # scratch attribute: written before read in the same call
+                # scratch attribute: written before read in the same call -- unless a recursive visit lies between the write and a
+                # read: the handler of a nested operator (possibly this very handler) overwrites it
+                clob = _visit_between_store_and_read(f.node, attr) if attr in W else None
+                if clob is not None:
+                    ok = False
+                    rep.fail(rule, f.module.rel, f.qual, slot, 'self.%s is initialised before the operand is visited (line %d) and read afterwards: a nested operator handled by '
+                             'the same visitor overwrites it, so the fold starts from the nested operator\'s final value' % (attr, clob), nodes[0].lineno)
+                continue
             if attr in W:
                 ok = False
                 rep.fail(rule, f.module.rel, f.qual, slot,
@@ -130,6 +137,23 @@ def pure_handlers(ix, rep, mon, rule='R-PURE'):
         if ok:
             rep.ok(rule, f.module.rel, f.qual, '%s:%s' % (mon.kind, ncname), 'reads operands, node parameters and configuration only', f.node.lineno)
     return n
+
+
+def _visit_between_store_and_read(fnode, attr):
+    """line of a self.visit(...) call that follows the first store of self.attr and precedes a read of it"""
+    stores = [n.lineno for n in ast.walk(fnode) if isinstance(n, ast.Attribute) and isinstance(n.ctx, ast.Store) and n.attr == attr
+              and isinstance(n.value, ast.Name) and n.value.id == 'self']
+    reads = [n.lineno for n in ast.walk(fnode) if isinstance(n, ast.Attribute) and isinstance(n.ctx, ast.Load) and n.attr == attr
+             and isinstance(n.value, ast.Name) and n.value.id == 'self']
+    visits = [n.lineno for n in ast.walk(fnode) if isinstance(n, ast.Call) and isinstance(n.func, ast.Attribute) and n.func.attr == 'visit'
+              and isinstance(n.func.value, ast.Name) and n.func.value.id == 'self']
+    if not stores or not reads:
+        return None
+    first = min(stores)
+    for v in visits:
+        if v > first and any(r > v for r in reads) and not any(first < s2 <= min(r for r in reads if r > v) and s2 > v for s2 in stores):
+            return v
+    return None
 
 
 def _parent_attr(fnode, target):
